@@ -11,10 +11,19 @@ Tie        : correspondence `gc_faults`: tables with 1-4 retained snapshots (sha
              (exists->False, garbage bytes, listing + "../x")} by wrapping the storage object; the same fault plan
              drives the model; compared: abort phase / completion, exact deleted set, keep sets, call trace.
              `gc_damage`: every damage class {missing, garbage, empty, cut inside the Avro block, cut in the header}
-             on every reachable list / manifest, real directory vs model.  The pointer plane (version hint, metadata JSON)
+             on every reachable list / manifest, plus BYTE-LEVEL damage anywhere in the file -- single-byte flips and
+             truncations over the header, the block framing, EVERY record and every sync marker (quick: spread + structural
+             offsets; thorough: every offset) -- on tables whose lists and manifests have several records and, in two
+             variants, several Avro blocks; plus the STREAM of each list / manifest failing part-way (connection reset,
+             short read) at spread / block-boundary offsets.  What a damaged file or faulty stream amounts to (records
+             decoded before the failure, exception class) is decided by an independent record-by-record decode; the model
+             gets the content class CPartialAvro (decoded, caught) resp. the fault FRaise / FRaiseX, real vs model.  The pointer plane (version hint, metadata JSON)
              is outside the model: faults at every call of refresh() / the hint check and damage of the current metadata
              file {missing, garbage, empty, truncated} are judged by the oracle only; a stale hint is recorded, not judged.
-Oracle /   : implementation only (independent reader): whenever collect raised -> GarbageCollectionAborted and the
+             Every library call runs under a time limit (SIGALRM) and a worker memory limit: a hang is a `hang:` violation.
+Oracle /   : implementation only (independent reader): an unparseable reachable file / failing stream -> the collection
+search       raises, or its keep sets (observed at _gc_prefix) still hold every reachable and live file; damage that still
+             parses to different records is recorded, not judged; whenever collect raised -> GarbageCollectionAborted and the
 search       data / manifest file set is unchanged when the fault precedes the first sweep (afterwards: only true
              orphans gone); always deleted & (reachable | live protected) = {}; a marker still present protects.
 """
@@ -47,7 +56,9 @@ MANIFEST_ENTRY = {
                   "pairs) and every damage class on every reachable metadata-plane file, comparing abort phase, deleted set and call trace",
     "level_note": "trusted: Coq kernel; translator/gen_norm.py (incl. the pinned try/except skeleton); wf_store; the pointer plane "
                   "(metadata_manager.refresh(), collect()'s check that the hinted metadata file exists) is outside the model: faults and "
-                  "damage there are judged by the implementation-only oracle (any exception, nothing deleted); a stale hint naming an older "
+                  "damage there are judged by the implementation-only oracle (any exception, nothing deleted); byte damage that still "
+                  "decodes to DIFFERENT records (e.g. a flipped path character) is undetectable without checksums: recorded, not judged, "
+                  "not compared; a short read ending exactly on an Avro block boundary likewise; a stale hint naming an older "
                   "existing version is C10's finding and only recorded; an abort raised by a sweep's own listing may follow deletions of "
                   "true orphans (the property's second disjunct) -- stated and proved as such; damage that still parses (a JSON object "
                   "without 'manifests' / 'files' reads as an EMPTY manifest) is modelled, recorded and not judged; local backend only",
@@ -152,7 +163,7 @@ def reencode_multiblock(root: str, reader: gcsim.IndepReader) -> None:
             f.write(bio.getvalue())
 
 
-def byte_damages(bs: bytes, thorough: bool, rng: random.Random) -> List[Tuple[Any, ...]]:
+def byte_damages(bs: bytes, thorough: bool, rng: random.Random, exhaustive: bool = True) -> List[Tuple[Any, ...]]:
     """Byte-level damage of an Avro container: single-byte flips and truncations, spread over the whole file and aimed at
     the structure (block counts / sizes, every sync marker, the last record)."""
     n = len(bs)
@@ -165,7 +176,7 @@ def byte_damages(bs: bytes, thorough: bool, rng: random.Random) -> List[Tuple[An
         ends.append(j + 16)
         i = j + 16
     body = ends[0] if ends else 0                  # end of the header = start of the first block
-    if thorough and n <= 1600:
+    if thorough and exhaustive and n <= 1600:
         offs = list(range(n))
     else:
         m = 160 if thorough else 14
@@ -173,7 +184,7 @@ def byte_damages(bs: bytes, thorough: bool, rng: random.Random) -> List[Tuple[An
                 | {n - 1, n - 16, n - 17, n - 20, body, body + 1, body + 2, body // 2})
         offs = sorted(o for o in cand if 0 <= o < n)
     out: List[Tuple[Any, ...]] = [("flip", o, 0xFF) for o in offs if bs[o] != 0xFF]
-    xo = offs if thorough else rng.sample(offs, min(4, len(offs)))
+    xo = offs[::3] if thorough else rng.sample(offs, min(4, len(offs)))
     out += [("flip", o, bs[o] ^ 0x01) for o in xo]
     if thorough:
         cuts = sorted(set(range(1, n, 7)) | {e + d for e in ends for d in (-17, -16, -1, 0, 1)})
@@ -409,7 +420,7 @@ def run_table(spec: Dict[str, Any]) -> Dict[str, Any]:
             bs = open(os.path.join(root, key), "rb").read()
             orig = gcsim.avro_probe(gcsim.as_file(bs))
             seen_effect = set()
-            for dmg in byte_damages(bs, thorough, rng):
+            for dmg in byte_damages(bs, thorough, rng, bool(spec.get("exhaustive", True))):
                 desc = {"type": "damage", "target": [role, ordinal], "damage": list(dmg)}
                 if not wanted(desc):
                     continue
@@ -570,7 +581,7 @@ def make_specs(ctx) -> List[Dict[str, Any]]:
     for vi, v in enumerate(variants):
         for g in graces:
             specs.append(dict(v, seed=ctx.rng.randrange(1 << 30), grace=g, all_kinds=True, pairs=int(os.environ.get("VERIF_C07_PAIRS", 0 if quick else 250)),
-                              thorough=not quick, case_timeout=30,
+                              thorough=not quick, exhaustive=(g == 0), case_timeout=30,
                               base=os.path.join(ctx.scratch, f"f{vi}_{g}")))
     return specs
 
@@ -747,9 +758,10 @@ def run_campaign(ctx) -> None:
 def run(ctx) -> None:
     import logging
     logging.disable(logging.CRITICAL)
-    ctx.rule = ("one evaluation = one real collection with one fault plan (a fault at one storage call: 4 kinds; thorough: pairs) or one "
-                "damaged reachable file (6 classes), judged by the independent oracle and compared with the model; distinct by "
-                "(table, fault kind, call, file role)")
+    ctx.rule = ("one evaluation = one real collection with one fault plan (a fault at one storage call: 4 kinds, or the stream failing "
+                "part-way; thorough: pairs) or one damaged reachable file (6 whole-file classes; single-byte flips and truncations at "
+                "many offsets), judged by the independent oracle and compared with the model; distinct by (table, fault kind, call, "
+                "file role, offset)")
     ctx.trusted_base += [
         "translator/gen_norm.py (regenerated path kernel; try/except skeleton of collect / _load_inflight_protection / _marker_targets / _gc_prefix pinned)",
         "harness: harness/props/c07.py, harness/lib/gcsim.py (fault injection by wrapping the storage backend object; independent reader; frozen clock)",
